@@ -59,7 +59,7 @@ func reg(id string, c *propCfg) {
 func init() {
 	reg("C01", &propCfg{Test: "TestC01", Quick: 3000, Thorough: 60000})
 	reg("C02", &propCfg{Test: "TestC02", Quick: 2000, Thorough: 40000})
-	reg("C03", &propCfg{Test: "TestC03", Quick: 320, Thorough: 6000})
+	reg("C03", &propCfg{Test: "TestC03", Quick: 960, Thorough: 12000})
 	reg("C04", &propCfg{Test: "TestC04", Quick: 2000, Thorough: 40000})
 	reg("C05", &propCfg{Test: "TestC05", Quick: 240, Thorough: 4800, Level: "fault_enumeration",
 		Assumptions: []string{"crash model: un-synced writes reach the disk as any subset of 4096-byte blocks, file length anywhere between the synced length and the highest applied block, directory operations ordered and durable; with NoSync process-kill only"}})
@@ -73,8 +73,8 @@ func init() {
 	reg("C13", &propCfg{Test: "TestC13", Quick: 2500, Thorough: 50000})
 	reg("C14", &propCfg{Test: "TestC14", Quick: 400, Thorough: 8000, Fuzz: "FuzzC14", FuzzTime: 120 * time.Second})
 	reg("C15", &propCfg{Test: "TestC15", Quick: 1500, Thorough: 30000})
-	reg("C16", &propCfg{Test: "TestC16", Quick: 320, Thorough: 6000, StallIsViolation: true})
-	reg("C17", &propCfg{Test: "TestC17", Quick: 160, Thorough: 3000, Race: true})
+	reg("C16", &propCfg{Test: "TestC16", Quick: 960, Thorough: 12000, StallIsViolation: true})
+	reg("C17", &propCfg{Test: "TestC17", Quick: 480, Thorough: 6000, Race: true})
 	reg("C18", &propCfg{Test: "TestC18", Quick: 1000, Thorough: 20000})
 	reg("C19", &propCfg{Test: "TestC19", Quick: 1500, Thorough: 20000, Fuzz: "FuzzC19", FuzzTime: 120 * time.Second})
 	reg("C20", &propCfg{Test: "TestC20", Quick: 2500, Thorough: 50000})
